@@ -288,11 +288,25 @@ pub fn one_case<R: Src>(r: &mut R, id: &str) -> Option<(IllCase, (String, String
             },
          },
          "ds_on_lattice" => {
+            // a custom provider, or the default provider written out (with or without the leading `::`, with or
+            // without the same provider as the program-wide default): none may sit on a lattice
+            let forms = [
+               ("eqrel", "::ascent_byods_rels::eqrel", false),
+               ("trrel", "::ascent_byods_rels::trrel", false),
+               ("default_rel", "ascent::rel", false),
+               ("default_rel_global_path", "::ascent::rel", false),
+               ("same_as_program_default", "ascent::rel", true),
+               ("same_as_program_default_global_path", "::ascent::rel", true),
+            ];
+            let (kind, path, program_wide) = forms[r.below(forms.len())];
             match prog.rels.iter().position(|d| d.is_lattice) {
-               Some(li) => new_items[li] = format!("#[ds(::ascent_byods_rels::eqrel)] {}", items[li]),
-               None => new_items.insert(0, "#[ds(::ascent_byods_rels::eqrel)] lattice zl(u32, u32);".into()),
+               Some(li) => new_items[li] = format!("#[ds({path})] {}", items[li]),
+               None => new_items.insert(0, format!("#[ds({path})] lattice zl(u32, u32);")),
             }
-            site = "declaration".into();
+            if program_wide {
+               new_items.insert(0, format!("#![ds({path})]"));
+            }
+            site = format!("declaration:{kind}");
             true
          },
          "two_ds_attributes" => {
